@@ -445,6 +445,31 @@ func c04(c *core.Ctx) {
 					c.Undecided(key, fe.Pos(), "cannot relate the argument of status.FromError to the handler's error")
 				}
 			}
+			// the conversion done by a helper of the package that is handed the handler's error
+			for _, h := range core.HelperCallsOf(hc.Fn) {
+				for _, fe := range core.CallsIn(h.Callee, func(_ *ssa.Call, ci core.CallInfo) bool {
+					return ci.Is(statusPkg+".FromError") || ci.Is(statusPkg+".Convert") || ci.Is(statusPkg+".Code")
+				}) {
+					arg := fe.Call.Args[0]
+					if !derivesFromHandlerErrBound(arg, hcalls, h.Bind) {
+						continue
+					}
+					key := core.FuncName(hc.Fn) + ":status-of-handler-error"
+					raw := core.OriginIs(arg, func(o ssa.Value) bool { _, isPar := h.Bind[o]; return isPar })
+					translated := core.AllOrigins(arg, func(o ssa.Value) bool {
+						call, _, ok := core.CallResult(o)
+						return ok && isTranslatorCall(&call.Call, trs)
+					})
+					switch {
+					case translated:
+						c.Ok(key, h.Call.Pos(), "status.FromError is applied (in %s) to the translated handler error", core.FuncName(h.Callee))
+					case raw:
+						c.Fail(key, fe.Pos(), "status.FromError is applied to the handler's raw error: a handler returning ctx.Err() is reported as Unknown instead of Canceled / DeadlineExceeded")
+					default:
+						c.Undecided(key, fe.Pos(), "cannot relate the argument of status.FromError to the handler's error")
+					}
+				}
+			}
 		}
 		// in-process client: returns of a received frame's err
 		for _, fn := range p.LibFuncs("inprocgrpc") {
